@@ -30,7 +30,8 @@ RULE = (
     "wrong type, nested wrong type, None, bool/float for int, str for list) x {constructor, copy, merge_file_level, front "
     "matter of a parsed document, docutils option string, Sphinx conf value} - enumerated completely (distinct by "
     "construction); effect-equivalence pairs (option table x generated documents) and invalid-front-matter documents are "
-    "random (distinct by hash); non-trivial = the value is not the field's default"
+    "random (distinct by hash); option STRINGS (30 per dictionary option, 15 per integer option, every spelling of a valid value) are accepted on the command line and in a docutils.conf exactly "
+    "when the constructor accepts the deserialised value (exhaustive); non-trivial = the value is not the field's default"
 )
 ASSUME = [
     "documented types are the field annotations / doc_type metadata shown in docs/configuration.md; bool counts as int (Python semantics) and is not judged for int fields, nor is a float equal to an allowed integer",
